@@ -1226,7 +1226,7 @@ fn gen(r: &mut Rng, tier: Tier, out: &mut Out) {
 
 	// ---- 4. jumps whose offset straddles the i16 range, in methods of 32..64 KiB
 	let offs: [i64; 9] = [32766, 32767, 32768, 32769, -32766, -32767, -32768, -32769, -32770];
-	let rounds = if thorough { 12 } else { 1 };
+	let rounds = if thorough { 12 } else { 2 };
 	for round in 0..rounds {
 		for &off in &offs {
 			for class in 0..3 {
@@ -1282,7 +1282,7 @@ fn gen(r: &mut Rng, tier: Tier, out: &mut Out) {
 	}
 
 	// random large methods: several jumps and switches between segment starts, one span at the i16 limit
-	for _ in 0..(if thorough { 1500 } else { 40 }) {
+	for _ in 0..(if thorough { 1500 } else { 120 }) {
 		let b = random_large(r, out);
 		let n = b.n;
 		if r.chance(1, 3) {
